@@ -415,6 +415,15 @@ let handle (line : string) : string =
           (if g.M.g_enabled then "True" else "False")
           (match g.M.g_release with None -> "None" | Some j -> string_of_json j))
       (M.parse_chunks (M.ginit r) (List.map chunk_of_string chunks))
+  | "gpsdenable" :: req :: chunks ->
+    let r = if req = "-" then None else Some (cstring (ostring_of_hex req)) in
+    show_res (fun (g, rest) ->
+        Printf.sprintf "sel=%s enabled=%s unread=%d header=%s"
+          (match g.M.g_sel with None -> "None" | Some d -> ostring d)
+          (if g.M.g_enabled then "True" else "False")
+          (List.length rest)
+          (match M.cmd_header g with None -> "None" | Some h -> ostring h))
+      (M.enable_loop (M.ginit r) (List.map chunk_of_string chunks))
   | ["enc"; fs] ->
     show_res hex_of_bytes (M.encode (fields_of_string fs))
   | ["cpack"; it] ->
